@@ -142,7 +142,10 @@ def run(ctx):
             # the Bayesian model must see the same data either way, also while other trials are still running
             cfg.update(kind="bayes", W=rng.choice([2, 3]), max_trials=rng.choice([6, 7, 8]), nsteps=45, max_retries=0, max_consec=9)
         elif j % 3 == 1:
-            cfg.update(kind="hyperband", W=rng.choice([2, 3, 4]), max_trials=None, max_epochs=rng.choice([4, 9]), factor=rng.choice([2, 3]), iterations=1, nsteps=60)
+            cfg.update(kind="hyperband", W=rng.choice([2, 3, 4]), max_trials=None, max_epochs=rng.choice([4, 9]), factor=rng.choice([2, 3]), iterations=1, nsteps=rng.choice([60, 90]))
+            if rng.random() < 0.7:
+                cfg["score_range"] = rng.choice([(0, 1), (0, 2), (-1, 1)])     # ties among the candidates of a promotion: which of them continues must not depend on the direction
+                cfg["max_retries"] = 0
         if cfg["kind"] == "bayes" and j % 3 != 0:
             cfg["max_trials"] = rng.choice([4, 5, 6]); cfg["nsteps"] = 30
         msg, ha = sym_pair(ctx, cfg)
